@@ -1,4 +1,6 @@
 """C16 - property-protocol settings: sent once, correctly encoded, read back equal."""
+import asyncio
+
 from .common import REAL_BASE, STUB_BASE, Result, Space, SimDeadlock, SimStepLimit
 from .session import Session
 from refmodel import acmodel as M
@@ -184,11 +186,22 @@ def run(plan):
                     want_ids = {0x0039}
                     want[0x0039] = b"\x01"
                 want[0x001A] = bytes([1 if ac.beep else 0])
-                o = await s.do({"op": kind})
+                aop = {"op": kind}
+                if op.get("lose_ack") and kind == "apply" and changed:
+                    # the acknowledgement of the property write is lost (all transmissions unanswered)
+                    aop["net"] = [{}, {"drop": True}, {"drop": True}, {"drop": True}]
+                nlog = len(dev.log)
+                o = await s.do(aop)
                 if o.kind != "ok":
                     res.fail(f"{kind} raised {o.exc_type}", repr(o.exc))
                     return
                 sets = dev.prop_sets[n0:]
+                if aop.get("net"):
+                    # retransmissions of one command (identical frames) count once
+                    frames = [e["frame"] for e in dev.log[nlog:] if e["kind"] == "request" and e["body"][:1] == b"\xb0"]
+                    if len(set(frames)) == 1:
+                        sets = sets[:1]
+                    w.fire("property_ack_lost")
                 if kind == "apply" and not changed:
                     if sets:
                         res.fail("apply with no changed property sent a property write", repr(sets))
@@ -218,8 +231,14 @@ def run(plan):
                     return
                 if not one_breeze(ac, f"after {kind}"):
                     return
+            elif kind == "idle":
+                await asyncio.sleep(op["d"])
             elif kind == "refresh":
-                o = await s.do({"op": "refresh"})
+                rop = {"op": "refresh"}
+                if op.get("dup_props_late") and supported_ids(p):
+                    # the device re-sends its property report a few seconds later (a late duplicate)
+                    rop["net"] = [{}, {"dup_late": op["dup_props_late"]}]
+                o = await s.do(rop)
                 if o.kind != "ok":
                     res.fail(f"refresh raised {o.exc_type}", repr(o.exc))
                     return
@@ -292,7 +311,7 @@ def gen(j, rng):
         elif r < 0.52:
             ops.append({"op": "beep", "value": rng.random() < 0.5})
         elif r < 0.75:
-            ops.append({"op": "apply"})
+            ops.append({"op": "apply", "lose_ack": True} if rng.random() < 0.15 else {"op": "apply"})
         elif r < 0.92:
             ops.append({"op": "refresh"})
         elif r < 0.96 and p["clean"]:
@@ -312,6 +331,11 @@ def gen(j, rng):
             if pid in (0x0042, 0x0018) and p["breeze"] == "both":
                 continue        # keep the device-side exclusivity invariant
             ops.append({"op": "dev_store", "pid": pid, "value": v.hex()})
+    if setters and rng.random() < 0.25:
+        # late duplicate of a property report: refresh, change + apply before it arrives, idle, refresh again
+        attr, vals = rng.choice(setters)
+        ops += [{"op": "apply"}, {"op": "refresh", "dup_props_late": 3.0}, {"op": "set", "attr": attr, "value": rng.choice(vals)},
+                {"op": "apply"}, {"op": "idle", "d": 4.0}, {"op": "refresh"}]
     ops += [{"op": "apply"}, {"op": "refresh"}, {"op": "apply"}]
     cfg = {"version": rng.choice([2, 2, 3]), "caps_pages": [[profile_caps(p), None]], "props": store}
     return {"config": cfg, "profile": p, "ops": ops}
